@@ -479,7 +479,7 @@ let c04_clause_name = function
   | WEmptyName -> "member-without-a-name"
 
 let run_c04 ic =
-  let n = ref 0 and n_dis = ref 0 and n_fail = ref 0 and n_err = ref 0 and n_cpio = ref 0 and n_tar = ref 0 and n_outer = ref 0 in
+  let n = ref 0 and n_dis = ref 0 and n_fail = ref 0 and n_err = ref 0 and n_cpio = ref 0 and n_tar = ref 0 and n_outer = ref 0 and n_tarfields = ref 0 in
   iter_cases ic (fun _ -> ()) (fun c ->
       incr n;
       let f = fmt_of_string c.format in
@@ -527,7 +527,37 @@ let run_c04 ic =
                 let theirs = List.filter_map (fun (k2, t2) ->
                     if k2 = "tarent" && unhexs t2.(1) = nm then Some (Char.chr (int_of_string t2.(2)), int_of_string t2.(3)) else None) c.extra in
                 let ours = match tar_raw_list s with None -> None | Some l -> Some (List.map (fun (f, n) -> (f, int_of_nat n)) l) in
-                Some ((if ours = Some theirs then [] else [Printf.sprintf "tar %s: the container model's reader and the raw block scan find different members" nm])
+                (* field level: every header block is the model writer's block for the fields the model reader finds in it;
+                   the logical members (names through PAX records, GNU long names and the prefix field) are the ones
+                   archive/tar's reader hands out *)
+                let int_of_nat_tr n = let rec go acc = function O -> acc | S n -> go (acc + 1) n in go 0 n in
+                let go_view = List.filter_map (fun (k2, t2) ->
+                    if k2 = "tarlog" && unhexs t2.(1) = nm then
+                      Some (unhexs t2.(2), int_of_string t2.(3), int_of_string t2.(4), int_of_string t2.(5), int_of_string t2.(6), int_of_string t2.(7),
+                            unhexs t2.(8), unhexs t2.(9), unhexs t2.(10), int_of_string t2.(11), t2.(12))
+                    else None) c.extra in
+                let go_err = List.exists (fun (k2, t2) -> k2 = "tarlogerr" && unhexs t2.(1) = nm) c.extra in
+                let model_view = match tar_logical s with
+                  | None -> None
+                  | Some l -> Some (List.map (fun (m : lmember) ->
+                      (implode m.lm_name, Char.code m.lm_type, int_of_n m.lm_mode, int_of_n m.lm_uid, int_of_n m.lm_gid, int_of_n m.lm_mtime,
+                       implode m.lm_link, implode m.lm_uname, implode m.lm_gname, int_of_nat_tr m.lm_size,
+                       Digest.to_hex (Digest.string (implode m.lm_data)))) l) in
+                incr n_tarfields;
+                let field_notes =
+                  (if tar_fields_reencode s then [] else [Printf.sprintf "tar %s: a header block is not the field-level writer's block for the fields read from it" nm])
+                  @ (if go_err then [] else match model_view with
+                      | None -> [Printf.sprintf "tar %s: the model's reader of header fields and extension members cannot read the stream" nm]
+                      | Some mv when mv = go_view -> []
+                      | Some mv ->
+                        let show (a, ty, mo, u, g, mt, l, un, gn, sz, d) = Printf.sprintf "%S type=%c mode=%o uid=%d gid=%d mtime=%d link=%S uname=%S gname=%S size=%d md5=%s" a (Char.chr ty) mo u g mt l un gn sz d in
+                        let rec first a b = match a, b with
+                          | x :: a', y :: b' -> if x = y then first a' b' else Printf.sprintf "model reads %s; archive/tar reads %s" (show x) (show y)
+                          | x :: _, [] -> "model reads a further member " ^ show x
+                          | [], y :: _ -> "archive/tar reads a further member " ^ show y
+                          | [], [] -> "?" in
+                        [Printf.sprintf "tar %s: the model's reader and archive/tar's reader disagree: %s" nm (first mv go_view)]) in
+                Some (field_notes @ (if ours = Some theirs then [] else [Printf.sprintf "tar %s: the container model's reader and the raw block scan find different members" nm])
                       @ (if (if full then tar_reencodes_full s else tar_reencodes_cut s) then []
                          else [Printf.sprintf "tar %s: the container model's writer does not reproduce the %s from its members" nm
                                  (if full then "complete archive (header checksums, size fields, padding, two zero blocks)" else "cut segment (no end-of-archive marker)")]))
@@ -555,7 +585,7 @@ let run_c04 ic =
         if clauses <> [] || not agree then
           report ~kf c.id agree (List.sort_uniq compare (List.map c04_clause_name clauses)) []
             (cpio_notes @ List.map (fun (k, _) -> "structure fact false: " ^ k) bad @ (if install_ok then [] else [".INSTALL presence does not match configured scripts"])));
-  Printf.printf "SUMMARY cases=%d disagreements=%d impl_failures=%d impl_errors=%d cpio_archives_reencoded=%d tar_streams_reencoded=%d outer_containers_reencoded=%d\n" !n !n_dis !n_fail !n_err !n_cpio !n_tar !n_outer
+  Printf.printf "SUMMARY cases=%d disagreements=%d impl_failures=%d impl_errors=%d cpio_archives_reencoded=%d tar_streams_reencoded=%d outer_containers_reencoded=%d tar_streams_read_at_field_level=%d\n" !n !n_dis !n_fail !n_err !n_cpio !n_tar !n_outer !n_tarfields
 
 (* ---------- C02 ---------- *)
 let group_lists (l : (string * string) list) : (char list * char list list) list =
